@@ -52,7 +52,7 @@ func (it *Iterator) Key() []byte {
 // Value 返回当前位置 key 对应的实际 value
 func (it *Iterator) Value() ([]byte, error) {
 	logRecordPos := it.indexIter.Value()
-	return it.db.getValueByPosition(logRecordPos)
+	return it.db.getValueByPosition(it.indexIter.Key(), logRecordPos)
 }
 
 // Close 关闭迭代器 释放相关资源
